@@ -25,7 +25,9 @@ BandOf == IF "exact" \in DOMAIN Traces[tid] /\ Traces[tid].exact THEN "-1" ELSE 
 Tr == Traces[tid]
 Op == Tr.ops[oi]
 \* the chain as declared during the epoch of the current operation (relations may be re-declared between epochs)
-Ch == IF "elems_by_epoch" \in DOMAIN Tr /\ oi <= Len(Tr.ops) /\ "epoch" \in DOMAIN Tr.ops[oi] /\ Tr.ops[oi].epoch <= Len(Tr.elems_by_epoch)
+\* (a run carries the chain as it was declared when that run was made; relations may be re-declared between runs)
+Ch == IF oi <= Len(Tr.ops) /\ "elems" \in DOMAIN Tr.ops[oi] THEN Tr.ops[oi].elems
+      ELSE IF "elems_by_epoch" \in DOMAIN Tr /\ oi <= Len(Tr.ops) /\ "epoch" \in DOMAIN Tr.ops[oi] /\ Tr.ops[oi].epoch <= Len(Tr.elems_by_epoch)
       THEN Tr.elems_by_epoch[Tr.ops[oi].epoch] ELSE Tr.elems
 Ep(r) == Tr.epochs[r.epoch]
 
